@@ -267,7 +267,9 @@ def run_obligations(obls, log):
         if len(names) == 1:
             share = {names[0]: NCPU}
         else:
-            share = {f: max(2, min(len(per[f]), round(NCPU * len(per[f]) / total))) for f in names}
+            # relative cost of one harness of the family (measured: heap-heavy extracted array / map code vs. small routing harnesses)
+            w = {f: len(per[f]) * fams[f].get("cost", 1) for f in names}
+            share = {f: max(2, min(len(per[f]), round(NCPU * w[f] / sum(w.values())))) for f in names}
         with ThreadPoolExecutor(max_workers=max(1, min(len(names), 6))) as ex:
             futs = {f: ex.submit(_run_family, f, fams[f], per[f], share[f], log) for f in names}
             for f in names:
